@@ -4,7 +4,7 @@ from __future__ import annotations
 from fractions import Fraction
 
 from .docgen import probe_times
-from .isdu import build_doc, project_isd, doc_params
+from .isdu import build_doc, project_isd, doc_params, region_name, region_names
 
 TTML_FIELDS = ("n", "kind", "parent", "b", "e", "reg", "disp", "anim", "txt", "nr", "rb", "re", "rdisp", "ranim", "rbg", "idisp")
 
@@ -57,7 +57,7 @@ def _may_paint(doc, ad):
   init = visible(doc.get_initial_value(BG)) if doc.has_initial_value(BG) else False
   out = [1 if init else 0]
   for k in range(1, ad.get("nr", 0) + 1):
-    r = doc.get_region("r%d" % k)
+    r = doc.get_region(region_name(ad, k))
     if r is None:
       out.append(1)
       continue
@@ -103,12 +103,13 @@ def _observe_doc_in_context(doc, ad, rid, times, detail, use_cache):
   obs = []
   obsc = []
   params = []
+  names = region_names(ad)
   for t in times:
     isd = ISD.from_model(doc, t0 + Fraction(t, D), sig) if snap_cached else ISD.from_model(doc, t0 + Fraction(t, D))
-    obs.append(project_isd(isd, detail))
+    obs.append(project_isd(isd, detail, names))
     params.append(doc_params(isd))
     if use_cache:
-      obsc.append(project_isd(ISD.from_model(doc, t0 + Fraction(t, D), sig), detail))
+      obsc.append(project_isd(ISD.from_model(doc, t0 + Fraction(t, D), sig), detail, names))
   if use_cache:
     fps.append(fingerprint(doc))
   seq = ISD.generate_isd_sequence(doc)
@@ -121,7 +122,7 @@ def _observe_doc_in_context(doc, ad, rid, times, detail, use_cache):
       continue
     tk, ok = ticks_of(Fraction(st) - t0, D)
     seqt.append(tk if ok else -7)
-    seqd.append([r["digest"] for r in project_isd(isd, False) if r["paints"]])
+    seqd.append([r["digest"] for r in project_isd(isd, False, names) if r["paints"]])
   rec = {"id": rid, "doc": {k: ad[k] for k in TTML_FIELDS}, "times": times, "obs": obs, "sig": sigticks, "sigok": sigok,
          "rpaint": _may_paint(doc, ad),
          "seqt": seqt, "seqd": seqd, "params": params, "srcparams": doc_params(doc)}
